@@ -1,6 +1,7 @@
 package main
 
 import (
+	"os"
 	"fmt"
 	"go/types"
 	"strings"
@@ -108,6 +109,11 @@ func findURLGuard(p *Program, r *Report, rule string) *urlGuard {
 	if g2 := findURLGuardByLanguage(p, lang, rule, fn); g2 != nil && !reportFails(lang) {
 		mergeObls(r, lang)
 		return g2
+	}
+	if os.Getenv("C11_DEBUG") != "" {
+		for _, o := range lang.Obls {
+			fmt.Printf("LANG %s %s %s: %s %s\n", o.Status, o.Rule, o.Construct, o.Detail, o.Witness)
+		}
 	}
 	mergeObls(r, shape)
 	return g
